@@ -71,6 +71,9 @@ struct Block {
   std::vector<int> Ns;          // numbers of subsets of the FS / BS routes
   std::vector<int> Ks;          // exponents k of the scaled routes FK / BK (inputs multiplied by 2^k) and of the Scaled events
   int nscaled = 0;              // number of Scaled events
+  int zlo = 0;                  // first z index of the image (the standard convention is 0); the physical grid does not depend on it
+  bool otf_same = false;         // Same lines also for the on-the-fly projector (set up on the block's image / on the standard image)
+  bool same_as_standard = false; // also record the rows of fresh objects on the standard image (z from 0): Same lines
   bool groups = false;          // FG / BG routes
   int nwinsets = 0;             // number of seeded window sets (FW / BW)
   bool otf = false;             // on-the-fly ray-tracing forward projector (O)
@@ -97,13 +100,35 @@ struct Sys {
   int vox_index(int z, int y, int x) const { return ((z - zmin) * ny + (y - ymin)) * nx + (x - xmin); }
 };
 
+// image grid g with the z index range starting at zlo and the x index range shifted by xshift (origin moved by -xshift
+// voxels, so that the voxel centres stay where they are).  The projectors place the MIDDLE of the z index range at the
+// centre of the scanner (plus origin.z), so the physical grid does not depend on zlo.
+static shared_ptr<Image> make_image_idx(const ProjDataInfo& pdi, const GridCfg& g, int zlo, int xshift = 0) {
+  const float vz = pdi.get_scanner_ptr()->get_ring_spacing() / g.nppr;
+  IndexRange3D range(zlo, zlo + g.nz - 1, -(g.ny / 2), -(g.ny / 2) + g.ny - 1, -(g.nx / 2) + xshift, -(g.nx / 2) + g.nx - 1 + xshift);
+  return shared_ptr<Image>(new Image(range, CartesianCoordinate3D<float>(g.oz * vz, g.oy, g.ox - xshift * g.vx), CartesianCoordinate3D<float>(vz, g.vy, g.vx)));
+}
+static void fill_indices(Sys& S);
+static shared_ptr<ProjMatrixByBin> make_block_matrix(const Block& b);
+
 static bool build(Sys& S, const Block& b, std::string* msg) {
   return !vh::threw([&] {
     S.pdi = make_pdi(b.d);
-    S.zero_image = make_image(*S.pdi, b.g);
+    S.zero_image = make_image_idx(*S.pdi, b.g, b.zlo);
     S.zero_image->fill(0.F);
+    S.matrix = make_block_matrix(b);
+    S.pair.reset(new ProjectorByBinPairUsingProjMatrixByBin(S.matrix));
+    if (S.pair->set_up(S.pdi, S.zero_image) != Succeeded::yes) error("c04: set_up of the projector pair failed");
+    S.fwd = S.pair->get_forward_projector_sptr();
+    S.bck = S.pair->get_back_projector_sptr();
+    S.sym.reset(S.bck->get_symmetries_used()->clone());
+    fill_indices(S);
+  }, msg);
+}
+static shared_ptr<ProjMatrixByBin> make_block_matrix(const Block& b) {
+    shared_ptr<ProjMatrixByBin> matrix;
     if (b.pair == "rt")
-      S.matrix = make_matrix(sw_from_bits(b.swbits), b.ntl, b.cache > 0, b.cache == 1);
+      matrix = make_matrix(sw_from_bits(b.swbits), b.ntl, b.cache > 0, b.cache == 1);
     else {
       shared_ptr<ProjMatrixByBinUsingInterpolation> m(new ProjMatrixByBinUsingInterpolation);
       const Sw s = sw_from_bits(b.swbits);
@@ -116,13 +141,11 @@ static bool build(Sys& S, const Block& b, std::string* msg) {
       if (!m->parse(is)) error("c04: parsing of the interpolation matrix parameters failed");
       m->enable_cache(b.cache > 0);
       m->store_only_basic_bins_in_cache(b.cache == 1);
-      S.matrix = m;
+      matrix = m;
     }
-    S.pair.reset(new ProjectorByBinPairUsingProjMatrixByBin(S.matrix));
-    if (S.pair->set_up(S.pdi, S.zero_image) != Succeeded::yes) error("c04: set_up of the projector pair failed");
-    S.fwd = S.pair->get_forward_projector_sptr();
-    S.bck = S.pair->get_back_projector_sptr();
-    S.sym.reset(S.bck->get_symmetries_used()->clone());
+    return matrix;
+}
+static void fill_indices(Sys& S) {
     S.bins = all_bins(*S.pdi);
     S.nb = (int)S.bins.size();
     S.min_seg = S.pdi->get_min_segment_num();
@@ -142,7 +165,6 @@ static bool build(Sys& S, const Block& b, std::string* msg) {
     S.xmin = lo.x(); S.ymin = lo.y(); S.zmin = lo.z();
     S.nx = hi.x() - lo.x() + 1; S.ny = hi.y() - lo.y() + 1; S.nz = hi.z() - lo.z() + 1;
     S.nv = S.nx * S.ny * S.nz;
-  }, msg);
 }
 
 // ------------------------------------------------------------------------------------------- access helpers
@@ -261,7 +283,7 @@ static void emit_config(vh::Trace& tr, const Block& b, const Sys& S, long id, co
   std::vector<std::vector<int>> segs;
   for (int s = S.min_seg; s <= S.pdi->get_max_segment_num(); ++s)
     segs.push_back({ s, S.pdi->get_min_axial_pos_num(s), S.pdi->get_max_axial_pos_num(s) });
-  j.arr2("segs", segs).num("nb", S.nb).num("nv", S.nv).num("nx", S.nx).num("ny", S.ny).num("nz", S.nz);
+  j.arr2("segs", segs).num("nb", S.nb).num("nv", S.nv).num("nx", S.nx).num("ny", S.ny).num("nz", S.nz).num("zlo", b.zlo);
   std::vector<int> eff(5, 0);
   bool cart = false;
   if (auto* c = dynamic_cast<const DataSymmetriesForBins_PET_CartesianGrid*>(S.sym.get())) {
@@ -570,6 +592,130 @@ static void histories(vh::Trace& tr, const Block& b, Sys& S, const Routes& R, vh
   }
 }
 
+// ------------------------------------------------------------------------------------------- same rows from another object
+// rows of the whole-data calls with unit vectors (f or bk may be null)
+static void whole_rows(const Sys& S, ForwardProjectorByBin* f, BackProjectorByBin* bk, std::vector<Row>& F, std::vector<Row>& B) {
+  F.assign(S.nb, Row()); B.assign(S.nb, Row());
+  shared_ptr<ExamInfo> ei(new ExamInfo);
+  ProjDataInMemory data(ei, S.pdi), ydata(ei, S.pdi);
+  shared_ptr<Image> e(S.zero_image->clone()), out(S.zero_image->clone());
+  if (f)
+    for (int v = 0; v < S.nv; ++v) {
+      voxel(S, *e, v) = 1.F;
+      f->forward_project(data, *e, 0, 1, true);
+      scan_data(S, data, [&](int i, float val) { add_nonzero(F[i], v, val); });
+      voxel(S, *e, v) = 0.F;
+    }
+  if (bk) {
+    ydata.fill(0.F);
+    for (int i = 0; i < S.nb; ++i) {
+      Bin bin = S.bins[i];
+      bin.set_bin_value(1.F);
+      ydata.set_bin_value(bin);
+      out->fill(-5.F);
+      bk->back_project(*out, ydata, 0, 1);
+      scan_image(S, *out, [&](int v, float val) { add_nonzero(B[i], v, val); });
+      bin.set_bin_value(0.F);
+      ydata.set_bin_value(bin);
+    }
+  }
+}
+// one Same line per bin: the rows of the object under test next to those of the reference object
+static void emit_same(vh::Trace& tr, const std::string& ctx, const std::string& name, const std::string& pair, int step, const Sys& S, const std::vector<Row>* F,
+                      const std::vector<Row>* rF, const std::vector<Row>* B, const std::vector<Row>* rB, const std::vector<Row>* O, const std::vector<Row>* rO) {
+  for (int i = 0; i < S.nb; ++i) {
+    vh::Json j("Same");
+    j.str("ctx", ctx).str("name", name).str("pair", pair).num("step", step).num("i", i).arr("b", bin_list(S.bins[i]));
+    if (F) j.raw("F", row_json((*F)[i], true)).raw("rF", row_json((*rF)[i], true));
+    if (B) j.raw("B", row_json((*B)[i], true)).raw("rB", row_json((*rB)[i], true));
+    if (O) j.raw("O", row_json((*O)[i], true)).raw("rO", row_json((*rO)[i], true));
+    tr.emit(j);
+  }
+}
+// image index conventions: the rows of block b (image z indices from b.zlo) next to those of fresh objects on the standard
+// image (z indices from 0); then the same image with the x index range shifted by one and the origin moved back
+static void same_as_standard(vh::Trace& tr, const Block& b, const Sys& S, const Routes& R) {
+  bool otf = b.otf_same;
+  Block sb = b;
+  sb.zlo = 0;
+  Sys T;
+  std::string msg;
+  if (!build(T, sb, &msg)) { tr.emit(vh::Json("SameRejected").str("name", b.name).str("msg", msg)); return; }
+  std::vector<Row> rF, rB, rO, O, dummy;
+  whole_rows(T, T.fwd.get(), T.bck.get(), rF, rB);
+  if (otf) {
+    // the on-the-fly projector on the block's image (it may refuse an image whose z indices do not start at 0) and on the standard one
+    ForwardProjectorByBinUsingRayTracing f, fs;
+    std::string om;
+    if (vh::threw([&] { f.set_up(S.pdi, S.zero_image); }, &om)) {
+      tr.emit(vh::Json("OtfRefused").str("name", b.name).num("zlo", b.zlo).str("msg", om));
+      otf = false;
+    } else {
+      whole_rows(S, &f, nullptr, O, dummy);
+      fs.set_up(T.pdi, T.zero_image);
+      whole_rows(T, &fs, nullptr, rO, dummy);
+    }
+  }
+  emit_same(tr, "zindex", b.name, b.pair, b.zlo, S, &R.F, &rF, &R.B, &rB, otf ? &O : nullptr, otf ? &rO : nullptr);
+  // shifted x range
+  Sys X;
+  X.pdi = S.pdi;
+  X.zero_image = make_image_idx(*S.pdi, b.g, b.zlo, 1);
+  X.zero_image->fill(0.F);
+  std::string m;
+  const bool refused = vh::threw([&] {
+    X.matrix = make_block_matrix(b);
+    X.pair.reset(new ProjectorByBinPairUsingProjMatrixByBin(X.matrix));
+    if (X.pair->set_up(X.pdi, X.zero_image) != Succeeded::yes) error("c04: set_up of the projector pair failed");
+    X.fwd = X.pair->get_forward_projector_sptr();
+    X.bck = X.pair->get_back_projector_sptr();
+    fill_indices(X);
+  }, &m);
+  tr.emit(vh::Json("XYShift").str("name", b.name).str("pair", b.pair).num("xshift", 1).boolean("refused", refused).str("msg", m));
+  if (!refused) {
+    std::vector<Row> xF, xB;
+    whole_rows(X, X.fwd.get(), X.bck.get(), xF, xB);
+    emit_same(tr, "xshift", b.name, b.pair, 1, X, &xF, &rF, &xB, &rB, nullptr, nullptr);
+  }
+}
+
+// re-use of one projector object: set_up again and again with other arguments; after each set_up its rows next to those of
+// a fresh object set up with the current arguments
+struct Step { std::string label; DataCfg d; GridCfg g; int zlo; };
+static void reuse_sequence(vh::Trace& tr, const std::string& name, const Block& proto, bool otf, const std::vector<Step>& steps) {
+  shared_ptr<ProjectorByBinPairUsingProjMatrixByBin> pair;
+  shared_ptr<ForwardProjectorByBinUsingRayTracing> of;
+  if (otf) of.reset(new ForwardProjectorByBinUsingRayTracing);
+  else pair.reset(new ProjectorByBinPairUsingProjMatrixByBin(make_block_matrix(proto)));
+  for (size_t n = 0; n < steps.size(); ++n) {
+    Sys P;
+    std::vector<Row> F, B, rF, rB;
+    std::string m;
+    const bool err = vh::threw([&] {
+      P.pdi = make_pdi(steps[n].d);
+      P.zero_image = make_image_idx(*P.pdi, steps[n].g, steps[n].zlo);
+      P.zero_image->fill(0.F);
+      fill_indices(P);
+      if (otf) {
+        of->set_up(P.pdi, P.zero_image);
+        whole_rows(P, of.get(), nullptr, F, B);
+        ForwardProjectorByBinUsingRayTracing fresh;
+        fresh.set_up(P.pdi, P.zero_image);
+        whole_rows(P, &fresh, nullptr, rF, rB);
+      } else {
+        if (pair->set_up(P.pdi, P.zero_image) != Succeeded::yes) error("c04: set_up failed");
+        whole_rows(P, pair->get_forward_projector_sptr().get(), pair->get_back_projector_sptr().get(), F, B);
+        ProjectorByBinPairUsingProjMatrixByBin fresh(make_block_matrix(proto));
+        if (fresh.set_up(P.pdi, P.zero_image) != Succeeded::yes) error("c04: set_up failed");
+        whole_rows(P, fresh.get_forward_projector_sptr().get(), fresh.get_back_projector_sptr().get(), rF, rB);
+      }
+    }, &m);
+    tr.emit(vh::Json("ReuseStep").str("name", name).num("step", (int)n).str("label", steps[n].label).boolean("otf", otf)
+                .num("nb", err ? 0 : P.nb).num("nv", err ? 0 : P.nv).boolean("err", err).str("msg", m));
+    if (!err) emit_same(tr, "reuse", name, otf ? "otf" : proto.pair, (int)n, P, &F, &rF, otf ? nullptr : &B, otf ? nullptr : &rB, nullptr, nullptr);
+  }
+}
+
 // ------------------------------------------------------------------------------------------- homogeneity
 // one call made twice on the block's projector pair: with an integer image / integer data and with the same input times 2^k
 static void scaled_events(vh::Trace& tr, const Block& b, Sys& S, vh::Rng& rng) {
@@ -704,6 +850,11 @@ static std::vector<Block> blocks(int tier) {
     add("tof8-rt-c0-h", tof8, g7, "rt", 31, 1, 0, { 2 }, true, 3, false, 2, 40);
     add("tof8-rt-c2-h", tof8, g7, "rt", 31, 1, 2, { 3 }, true, 2, false, 1, 40);
     add("blk8-rt-c0-h", blk8, g15, "rt", 31, 1, 0, { 2 }, true, 3, false, 2, 40);
+    // image index conventions: z indices -1..1 instead of 0..2 (and an attempt with a shifted x range)
+    add("cyl8-rt-sw31-c0-zneg", cyl8, g7, "rt", 31, 1, 0, { 2 }, true, 2, false, 1, 30);
+    bs.back().zlo = -1; bs.back().same_as_standard = true; bs.back().otf_same = true;
+    add("cyl8-interp-c2-zpos", cyl8, g7, "interp", 31, 1, 2, { 3 }, true, 2, false, 0, 0);
+    bs.back().zlo = 4; bs.back().same_as_standard = true;
   } else {
     // every requested switch setting x cache mode on the 8-detector systems (all N), the larger systems under a selection
     for (int sw = 0; sw < 32; ++sw)
@@ -727,6 +878,17 @@ static std::vector<Block> blocks(int tier) {
       add("tof16-rt-c" + std::to_string(cache), tof16, g9, "rt", 31, 1, cache, { 2, 3 }, true, 3, false, 0, 0);
       add("blk8-rt-c" + std::to_string(cache), blk8, g15, "rt", 31, 1, cache, upto(5), true, 4, false, 2, 50);
       add("blk16-rt-c" + std::to_string(cache), blk16, g15b, "rt", 31, 1, cache, { 2, 3 }, true, 3, false, 0, 0);
+      // image index conventions
+      add("cyl8-rt-zneg-c" + std::to_string(cache), cyl8, g7, "rt", cache == 1 ? 6 : 31, 1, cache, { 2, 3 }, true, 3, false, 1, 40);
+      bs.back().zlo = -1; bs.back().same_as_standard = true; bs.back().otf_same = cache == 0;
+      add("cyl16-rt-zneg-c" + std::to_string(cache), cyl16, g9, "rt", 31, 1, cache, { 2 }, true, 3, false, 0, 0);
+      bs.back().zlo = -2 - cache; bs.back().same_as_standard = true; bs.back().otf_same = cache == 0;
+      add("cyl8-interp-zpos-c" + std::to_string(cache), cyl8, g7, "interp", 31, 1, cache, { 3 }, true, 2, false, 1, 40);
+      bs.back().zlo = 3 + cache; bs.back().same_as_standard = true;
+      add("tof8-rt-zneg-c" + std::to_string(cache), tof8, g7, "rt", 31, 1, cache, { 2 }, true, 2, false, 1, 40);
+      bs.back().zlo = -2; bs.back().same_as_standard = true;
+      add("blk8-rt-zneg-c" + std::to_string(cache), blk8, g15, "rt", 31, 1, cache, { 2 }, true, 2, false, 0, 0);
+      bs.back().zlo = -1; bs.back().same_as_standard = true;
     }
   }
   // exponents of the scaled routes: the large systems get two, the small ones (every projector pair / geometry class) all
@@ -754,6 +916,47 @@ int main(int argc, char** argv) {
     fclose(f);
     return 0;
   }
+  if (mode == "reuse") {
+    // c04_projectors reuse <out> <tier>: set_up histories of single projector objects
+    vh::Trace tr(argv[2]);
+    auto D = [](int N, int R, int maxDelta, int tofMash, int maxT, int numTang) {
+      DataCfg d; d.N = N; d.R = R; d.span = 1; d.maxDelta = maxDelta; d.tofMash = tofMash; d.maxT = maxT; d.numTang = numTang; return d; };
+    auto G = [](int n, int nz, float v, int nppr, int oz) { GridCfg g; g.nx = g.ny = n; g.nz = nz; g.vx = g.vy = v; g.nppr = nppr; g.oz = oz; return g; };
+    const DataCfg d8 = D(8, 2, 1, 0, 0, 5), d8b = D(8, 2, 0, 0, 0, 5), d8t = D(8, 2, 1, 1, 3, 5), d16 = D(16, 3, 2, 0, 0, 7);
+    // same data, other grids: more planes + shifted z origin; one plane per ring; negative z indices; other x/y size
+    const std::vector<Step> small = { { "first", d8, G(7, 3, 8.3F, 2, 0), 0 },          { "same data, 5 planes, z origin +1", d8, G(7, 5, 8.3F, 2, 1), 0 },
+                                      { "same data, 1 plane per ring", d8, G(7, 2, 8.3F, 1, 0), 0 }, { "same data, z indices from -2", d8, G(7, 3, 8.3F, 2, 0), -2 },
+                                      { "other data (segment 0 only), same image", d8b, G(7, 3, 8.3F, 2, 0), -2 },
+                                      { "same data, 9x9 image", d8b, G(9, 3, 6.3F, 2, 0), 0 }, { "back to the first", d8, G(7, 3, 8.3F, 2, 0), 0 } };
+    std::vector<Step> tofs = small;
+    tofs[4] = { "other data (TOF), same image", d8t, G(7, 3, 8.3F, 2, 0), -2 };
+    tofs[5] = { "TOF data, 9x9 image", d8t, G(9, 3, 6.3F, 2, 0), 0 };
+    const std::vector<Step> large = { { "first", d16, G(9, 5, 5.3F, 2, 0), 0 }, { "same data, 7 planes", d16, G(9, 7, 5.3F, 2, 0), 0 },
+                                      { "other data, same image", d8, G(9, 7, 5.3F, 2, 0), 0 }, { "back to the first", d16, G(9, 5, 5.3F, 2, 0), 0 } };
+    Block proto; proto.pair = "rt"; proto.swbits = 31; proto.ntl = 1;
+    std::vector<Step> osmall = small;      // the on-the-fly projector needs z indices from 0: shifted z origin instead
+    osmall[3] = { "same data, z origin -1", d8, G(7, 3, 8.3F, 2, -1), 0 };
+    osmall[4].zlo = 0;
+    reuse_sequence(tr, "otf-small", proto, true, osmall);
+    for (int cache = 0; cache < 3; ++cache) {
+      if (tier == 0 && cache == 1) continue;
+      proto.pair = "rt"; proto.cache = cache; proto.swbits = 31; proto.ntl = 1 + cache / 2;
+      reuse_sequence(tr, "rt-c" + std::to_string(cache), proto, false, cache == 2 ? tofs : small);
+    }
+    proto.pair = "interp"; proto.cache = 2; proto.ntl = 1;
+    reuse_sequence(tr, "interp-c2", proto, false, small);
+    if (tier > 0) {
+      reuse_sequence(tr, "otf-large", proto, true, large);
+      proto.pair = "rt"; proto.cache = 1; proto.swbits = 6;
+      reuse_sequence(tr, "rt-sw6-c1-large", proto, false, large);
+      proto.pair = "interp"; proto.cache = 0; proto.swbits = 31;
+      reuse_sequence(tr, "interp-c0", proto, false, small);
+      proto.pair = "rt"; proto.cache = 2; proto.swbits = 27;
+      std::vector<Step> rev(tofs.rbegin(), tofs.rend());
+      reuse_sequence(tr, "rt-sw27-c2-reversed", proto, false, rev);
+    }
+    return 0;
+  }
   const int first = argc > 4 ? atoi(argv[4]) : 0, last = argc > 5 ? atoi(argv[5]) : (int)bs.size() - 1;
   vh::Trace tr(argv[2]);
   for (int bi = first; bi <= last && bi < (int)bs.size(); ++bi) {
@@ -776,6 +979,7 @@ int main(int argc, char** argv) {
     if (b.nhist > 0) histories(tr, b, S, R, rng);
     if (otf) otf_groups(tr, b, S, rng, tier == 0 ? 6 : 9);
     scaled_events(tr, b, S, rng);
+    if (b.same_as_standard) same_as_standard(tr, b, S, R);
     tr.flush();
   }
   return 0;
